@@ -245,6 +245,12 @@ func ffgOp(op, pat string, args []string, a *argTrack) string {
 		if pat != "zx" && *x != x0 {
 			return ffgRes(z) + "!operand-modified"
 		}
+		// independent check: the stored value squares to x
+		var sq ffg.Element
+		sq.Mul(z, z)
+		if sq != x0 {
+			return ffgRes(z) + "!not-a-root"
+		}
 		return ffgRes(z)
 	case "setbigint":
 		need(args, 1)
